@@ -63,5 +63,37 @@ func registry() map[string]PropSpec {
 		},
 		Assumptions: []string{"regexp matching in c11_step uses the engine's backtracking matcher over the pattern read from the package initialiser"},
 	})
+	add(PropSpec{
+		ID: "C15",
+		Harnesses: []HSpec{
+			{Pkg: ".", Name: "c15_type", Quick: map[string]int{"len": 8}, Unwind: [2]int{16, 16},
+				What: "stepByType for every lower-case byte string of length <= 8 against the rule table; sentinel error"},
+			{Pkg: ".", Name: "c15_scalar", Quick: map[string]int{"len": 8}, Unwind: [2]int{16, 16},
+				What: "NewScalarStep for every lower-case byte string of length <= 8"},
+			{Pkg: ".", Name: "c15_infer", Quick: map[string]int{"extralen": 8}, Unwind: [2]int{24, 24},
+				What: "stepByKeyInference over all 2^10 subsets of the kind keys plus one arbitrary extra key (<= 8 bytes, first or last)"},
+			{Pkg: ".", Name: "c15_frommap", Quick: map[string]int{"len": 8, "keys": 2}, Thorough: map[string]int{"len": 8, "keys": 4}, Unwind: [2]int{32, 32},
+				What: "stepFromMap end to end through the reflective unmarshaler: type absent/string/non-string, up to `keys` kind keys with minimal values, an ill-typed plugins value, an extra key"},
+		},
+		Outside: []string{
+			"type / scalar strings longer than 8 bytes or outside [a-z] (all table entries are <= 8 lower-case bytes)",
+			"more than `keys` kind keys at once in the end-to-end harness (all subsets are covered at the inference function)",
+		},
+		Assumptions: []string{"reflect.* modelled over the engine's typed heap from go/types of the current source", "fmt.Errorf records its %w operands; message text opaque"},
+	})
+	add(PropSpec{
+		ID: "C10",
+		Harnesses: []HSpec{
+			{Pkg: ".", Name: "c10_envblock", Quick: map[string]int{"entries": 2, "callervars": 1, "valueshapes": 2}, Thorough: map[string]int{"entries": 2, "callervars": 2, "valueshapes": 4}, Unwind: [2]int{40, 60},
+				Models: []string{"github.com/buildkite/interpolate.Interpolate=vpModelInterpolate"}, Validate: []string{"interpolate"},
+				What:   "interpolateEnvBlock/Interpolate equal the in-order fold of the property statement: names and values expanded under caller env + earlier entries, rewritten in place, exported to the caller env unless runtime precedence applies, case-(in)sensitive caller env, later step strings expanded under the final env"},
+		},
+		Outside: []string{
+			"the ${VAR:-default}/substring/required forms of the interpolate library (outside the model; abandoned paths are counted)",
+			"name collisions after expansion (not defined by the property; excluded by assumption)",
+			"more entries / longer strings than the bounds; non-ASCII",
+		},
+		Assumptions: []string{"github.com/buildkite/interpolate.Interpolate replaced by the Go-written model vpModelInterpolate (validated natively against the real library on every string of <= 6 symbols over a 11-symbol alphabet)", "strings.ToUpper modelled bytewise on ASCII"},
+	})
 	return r
 }
